@@ -264,3 +264,37 @@ theorem appendEntryNode_own {f : Forest} {e nm : Nat} {N A S : List HTree} (h : 
 
 end Fmap
 end XotModel
+
+namespace XotModel
+namespace Fmap
+open HTree
+open Forest (MapKind entryKey mapChildren)
+
+/-- `append_*_node` of ANY live entry node (detached, or attached anywhere) whose key the view
+    already has: the existing node takes the value and is returned; nothing else changes (in
+    particular the passed node stays where it is). -/
+theorem appendEntryNode_existing {f : Forest} {e nm : Nat} {N A S : List HTree}
+    (h : MInv f e nm N A S) (k : MapKind) (nd : Nat) (v : Value) (hval : f.value? nd = some v)
+    (hm : k.matches v = true) (n : HTree) (hn : f.mapGetNode k e (entryKey v) = some n) :
+    ∃ s', Step f (f.appendEntryNode k e nd).1 e nm N A S k f.roots s' ∧
+      f.appendEntryNode k e nd = (f.setValue n.handle (Forest.entryUpdate n.value v), .ok, n.handle) ∧
+      s'.map entryPair = omInsert ((Sect.sec k N A).map entryPair) (entryKey v) (payloadOf v) ∧
+      s'.map (·.handle) = (Sect.sec k N A).map (·.handle) := by
+  have heq : f.appendEntryNode k e nd =
+      (f.setValue n.handle (Forest.entryUpdate n.value v), .ok, n.handle) := by
+    unfold Forest.appendEntryNode
+    rw [h.isElement]
+    simp only [Bool.not_true, Bool.false_eq_true, if_false, hval, hm]
+    unfold Forest.mapInsertNode
+    simp only [hval, hm, Bool.not_true, Bool.false_eq_true, if_false, hn]
+  rw [h.getNode k] at hn
+  obtain ⟨hkey, s1, s2, hs, hs1⟩ := find?_key_split _ _ _ hn
+  obtain ⟨hset, hinv, hmap, hnodes⟩ := insert_existing h k v hm n s1 s2 hs _ hkey hs1
+  rw [heq]
+  refine ⟨_, ⟨?_, ?_, ?_⟩, rfl, hmap, hnodes⟩
+  · simp only; rw [hset]
+  · simp only; rw [hset]; exact hinv
+  · simp only; rw [hset]; exact Nat.le_refl _
+
+end Fmap
+end XotModel
